@@ -413,6 +413,14 @@ func evalConstructorDeclareStmt(vm *r.VM, node *syntax.FunctionDeclareStmt) erro
 	if module != vm.GetCurrentModule() && module != r.NativeCodeModule {
 		return zerr.AssignToConstant()
 	}
+	// ... and it is the NAME THAT DEFINES the type which gets the constructor: a variable of
+	// this module that merely holds a type object (令T = HTTP请求) does not make a shared
+	// type this module's own
+	if module != nil && module != r.NativeCodeModule {
+		if def, err2 := module.GetExportValue(className.GetLiteral()); err2 != nil || def != r.Element(cmodel) {
+			return zerr.AssignToConstant()
+		}
+	}
 
 	//// there are some different Factors from normal method function:
 	// 1. no outerScope (clousure scope)
